@@ -168,7 +168,7 @@ impl Ctx {
         // the interpreter is ~10^4 times slower: bound the *workload* (never the verdict) by a case
         // count and by elapsed time
         let (cap, secs) = match self.tier {
-            Tier::Quick => (24, 40),
+            Tier::Quick => (24, 22),
             Tier::Thorough => (60, 200),
         };
         self.cases >= cap || self.started.elapsed().as_secs() >= secs
